@@ -19,7 +19,7 @@ import os
 import re
 from itertools import chain
 from pathlib import Path
-from typing import BinaryIO, Iterator, Optional
+from typing import BinaryIO, Iterable, Iterator, Optional
 
 from boolean.boolean import ParseError
 from license_expression import ExpressionError
@@ -39,8 +39,16 @@ SPDX_SNIPPET_INDICATOR = b"SPDX-SnippetBegin"
 
 _LOGGER = logging.getLogger(__name__)
 
+
+def _join_sorted(items: Iterable[str]) -> str:
+    """Join in a fixed order. Joining a bare set would make the order of the
+    items depend on the hash seed.
+    """
+    return "".join(sorted(items))
+
+
 _END_PATTERN = r"{}$".format(
-    "".join(
+    _join_sorted(
         {
             r"(?:{})*".format(item)  # pylint: disable=consider-using-f-string
             for item in chain(
